@@ -34,6 +34,8 @@ type Case struct {
 	Boot bool `json:"boot"`
 	// Branchable: the collection is declared @branchable (collection-level commits are replicated too).
 	Branchable bool `json:"branchable,omitempty"`
+	// APubSubOff: A's peer runs with pubsub disabled (net.pubSubEnabled=false); config rep only.
+	APubSubOff bool `json:"a_pubsub_off,omitempty"`
 	Ops        []Op `json:"ops"`
 }
 
@@ -42,7 +44,8 @@ type Case struct {
 //	w       write to document slot Doc: field F in {n, c, e, del}, value V; a slot that does not
 //	        exist yet is created, a write to a deleted slot is skipped. Wait: with B up, wait for
 //	        B to have A's head of that document before the next step (paced traffic).
-//	patch   PatchSchema add-field e on A then on B (once; later ones are skipped)
+//	patch   PatchSchema add-field on A and on B (first patch adds e, second adds g; later ones are
+//	        skipped); AOnly: only A is patched (B stays on the older schema version)
 //	down    close B's peer (database kept); the writes in Burst are issued concurrently with it
 //	up      reopen B's peer on the same key and port; Burst as above
 //	settle  checkpoint: obligation invariant; Full: also wait until B has everything
@@ -56,6 +59,7 @@ type Op struct {
 	Wait  bool    `json:"wait,omitempty"`
 	Full  bool    `json:"full,omitempty"`
 	Ms    int     `json:"ms,omitempty"`
+	AOnly bool    `json:"a_only,omitempty"`
 	Burst []Write `json:"burst,omitempty"`
 }
 
@@ -78,11 +82,14 @@ var rec = hx.NewRecorder("C15",
 	"liveness is checked in its safety form plus a bounded wait; a deadline miss alone is reported as inconclusive, never as a violation",
 )
 
-func drawWrite(t *rapid.T, c *Case, patched bool) Write {
+func drawWrite(t *rapid.T, c *Case, patches int) Write {
 	w := Write{Doc: rapid.IntRange(0, c.NDocs-1).Draw(t, "doc"), V: rapid.IntRange(1, 9).Draw(t, "v")}
 	fields := []string{"n", "c", "n", "c", "n", "del"}
-	if patched {
+	if patches == 1 {
 		fields = []string{"n", "e", "c", "e", "n", "c", "del"}
+	}
+	if patches >= 2 {
+		fields = []string{"n", "e", "c", "g", "n", "g", "del"}
 	}
 	w.F = rapid.SampledFrom(fields).Draw(t, "f")
 	return w
@@ -103,43 +110,71 @@ func pick(t *rapid.T, label string, kinds []string, weights []int) string {
 	return kinds[0]
 }
 
+const sigRetryCollectionID = "C15/obligation-lost/retry-push-names-schema-version-as-collection"
+
 func drawCase(t *rapid.T) Case {
 	c := Case{}
+	// Search past the known finding: half of the cases avoid its trigger by construction (at most
+	// one patch, always on both nodes, so a retried commit's schema version is B's active version).
+	maxPatches, allowAOnly := 2, true
+	if rec.KnownSwitch(sigRetryCollectionID) && rapid.Bool().Draw(t, "avoid-known") {
+		maxPatches, allowAOnly = 1, false
+	}
 	c.Config = rapid.SampledFrom([]string{"rep", "rep", "rep", "both", "both", "pubsub"}).Draw(t, "config")
 	c.NDocs = rapid.IntRange(1, 4).Draw(t, "ndocs")
 	c.Boot = rapid.IntRange(0, 3).Draw(t, "boot") == 0
-	if os.Getenv("C15_BRANCHABLE") != "" {
-		c.Branchable = rapid.IntRange(0, 3).Draw(t, "branchable") == 0
+	// two more known findings with a switch each: branchable collections, pubsub disabled on A
+	avoidBr := rec.KnownSwitch(sigCollectionRetry) && rapid.Bool().Draw(t, "avoid-known-branchable")
+	avoidPs := rec.KnownSwitch(sigPubSubOff) && rapid.Bool().Draw(t, "avoid-known-pubsuboff")
+	if !avoidBr {
+		c.Branchable = rapid.IntRange(0, 3).Draw(t, "branchable") == 3
+	}
+	if !avoidPs && c.Config == "rep" {
+		c.APubSubOff = rapid.IntRange(0, 5).Draw(t, "pubsuboff") == 5
 	}
 	hasRep := c.Config != "pubsub"
 	repSet := !hasRep
-	up, patched, outages := true, false, 0
+	up, patched, outages := true, 0, 0
 	if hasRep && rapid.IntRange(0, 4).Draw(t, "repfirst") > 0 {
 		c.Ops = append(c.Ops, Op{K: "setrep"})
 		repSet = true
 	}
-	n := rapid.IntRange(4, 12).Draw(t, "nops")
+	n := rapid.IntRange(5, 14).Draw(t, "nops")
+	writesThisOutage := 0
 	for i := 0; i < n; i++ {
-		kinds := []string{"w"}
-		weights := []int{50}
+		// rapid's integer generator favours small values, so the kind listed first is drawn most
+		// often: the order below puts the step that makes the history interesting first.
+		kinds := []string{}
+		weights := []int{}
 		add := func(k string, w int) { kinds = append(kinds, k); weights = append(weights, w) }
-		if up {
-			if outages == 0 {
-				add("down", 50)
-			} else {
-				add("down", 25)
+		patchW := func(base int) {
+			if patched < maxPatches {
+				add("patch", base)
 			}
-			add("settle", 10)
-			if !patched {
-				add("patch", 6)
-			}
+		}
+		switch {
+		case up && outages == 0:
+			add("down", 45)
+			add("w", 35)
+			patchW(8)
+			add("settle", 6)
+			add("pause", 3)
+		case up:
+			add("w", 50)
+			add("settle", 15)
+			add("down", 20)
+			patchW(8)
 			add("pause", 4)
-		} else {
+		case writesThisOutage == 0:
+			add("w", 60)
+			patchW(25)
+			add("pause", 8)
+			add("up", 8)
+		default:
+			patchW(30)
 			add("up", 30)
-			if !patched {
-				add("patch", 25)
-			}
-			add("pause", 15)
+			add("w", 35)
+			add("pause", 10)
 		}
 		if !repSet {
 			add("setrep", 15)
@@ -151,6 +186,9 @@ func drawCase(t *rapid.T) Case {
 			w := drawWrite(t, &c, patched)
 			op.Doc, op.F, op.V = w.Doc, w.F, w.V
 			op.Wait = rapid.IntRange(0, 2).Draw(t, "wait") == 0
+			if !up {
+				writesThisOutage++
+			}
 		case "down", "up":
 			if rapid.IntRange(0, 2).Draw(t, "hasburst") == 0 {
 				nb := rapid.IntRange(1, 5).Draw(t, "nburst")
@@ -161,9 +199,11 @@ func drawCase(t *rapid.T) Case {
 			up = k == "up"
 			if k == "down" {
 				outages++
+				writesThisOutage = len(op.Burst)
 			}
 		case "patch":
-			patched = true
+			patched++
+			op.AOnly = allowAOnly && rapid.IntRange(0, 3).Draw(t, "aonly") == 0
 		case "settle":
 			op.Full = rapid.Bool().Draw(t, "full")
 		case "setrep":
@@ -188,14 +228,17 @@ type shape struct {
 	deleteDown                bool
 	outages                   int
 	setrepLate, setrepDown    bool
-	patched                   bool
+	patched                   int
+	patchAOnly                bool
+	supersededPending         bool // a write at a patched version while B down, then another patch before B is back
 	longOutage                bool // >= 2.5s of pause while B down: the retry loop runs against a dead peer
 }
 
 func shapeOf(c Case) shape {
 	var s shape
-	up, patched, repSeen := true, false, false
+	up, patched, repSeen := true, 0, false
 	everDown := false
+	patchedWriteThisOutage := false
 	writesThisOutage := 0
 	writes := 0
 	countWrite := func(f string) {
@@ -203,8 +246,9 @@ func shapeOf(c Case) shape {
 		if !up {
 			s.writesDown++
 			writesThisOutage++
-			if patched {
+			if patched > 0 {
 				s.newVersionWriteDown = true
+				patchedWriteThisOutage = true
 			}
 			if f == "del" {
 				s.deleteDown = true
@@ -221,6 +265,7 @@ func shapeOf(c Case) shape {
 			if up {
 				s.outages++
 				writesThisOutage = 0
+				patchedWriteThisOutage = false
 				if len(op.Burst) > 0 {
 					s.burstOutage = true
 				}
@@ -246,10 +291,16 @@ func shapeOf(c Case) shape {
 				s.longOutage = true
 			}
 		case "patch":
-			if !patched {
-				patched = true
+			if patched < 2 {
+				patched++
 				if !up && writesThisOutage > 0 {
 					s.patchBetween = true
+				}
+				if !up && patchedWriteThisOutage {
+					s.supersededPending = true
+				}
+				if op.AOnly {
+					s.patchAOnly = true
 				}
 			}
 		case "setrep":
@@ -275,6 +326,9 @@ func labelsOf(c Case, s shape) []string {
 	}
 	if c.Branchable {
 		l = append(l, "branchable")
+	}
+	if c.APubSubOff {
+		l = append(l, "a-pubsub-disabled")
 	}
 	if s.writesDown > 0 {
 		l = append(l, "writes-while-b-down")
@@ -306,8 +360,20 @@ func labelsOf(c Case, s shape) []string {
 	if s.setrepDown {
 		l = append(l, "setrep-while-b-down")
 	}
-	if s.patched {
+	if s.patched > 0 {
 		l = append(l, "schema-patched")
+	}
+	if s.patched > 1 {
+		l = append(l, "schema-patched-twice")
+	}
+	if s.patchAOnly {
+		l = append(l, "patch-on-a-only")
+	}
+	if s.supersededPending {
+		l = append(l, "pending-retry-at-superseded-version")
+	}
+	if s.patched <= 1 && !s.patchAOnly {
+		l = append(l, "known-trigger-absent")
 	}
 	if s.longOutage {
 		l = append(l, "retry-attempted-while-b-still-down")
@@ -316,6 +382,11 @@ func labelsOf(c Case, s shape) []string {
 }
 
 func evalCase(t hx.TB, c Case) bool {
+	if os.Getenv("C15_DRY") != "" {
+		// generator tuning: label statistics without running anything
+		fmt.Println("DRY", labelsOf(c, shapeOf(c)), len(c.Ops))
+		return false
+	}
 	var info runInfo
 	f := hx.Guard("C15", func() *hx.Failure { return run(c, &info) })
 	s := shapeOf(c)
